@@ -192,6 +192,7 @@ VARIABLES mem,    \* the store
           last,   \* the last operation (part of the VIEW: edge coverage)
           chk     \* what the last operation claims to have copied / shared (for the invariants)
 vars == <<mem, mty, hist, obs, last, chk>>
+\* the depth is part of the VIEW: the step bound and NewVal depend on it (hist itself is hidden)
 View == <<mem, last, Len(hist)>>
 
 NoChk == [c |-> "none"]
@@ -644,9 +645,9 @@ ShareIdentity ==
                         LET M2 == SetEntry(mem, D.val.id, 1, EntS(TRUE, 99)) IN M2[Rd(M2, chk.s).val.id][1].v = 99
 
 \* behaviours are handed to the harness from an always-true invariant.  Exhaustive cfgs
-\* (EmitAt = 0) emit every state: with VIEW = <<mem, last>> TLC visits every distinct
-\* (store, incoming operation) once, in BFS order, so each is emitted with one shortest
-\* history reaching it.  Simulation cfgs emit the complete history (EmitAt = MaxSteps).
+\* (EmitAt = 0) emit every state: with VIEW = <<mem, last, depth>> TLC visits every distinct
+\* (store, incoming operation, depth) once, so each is emitted with one history reaching it;
+\* the harness replays the histories of maximal length (they contain their prefixes).  Simulation cfgs emit the complete history (EmitAt = MaxSteps).
 CONSTANT EmitAt
 Emit == (hist # <<>> /\ (EmitAt = 0 \/ Len(hist) = EmitAt)) =>
             PrintT(<<"BEH", ToJson([init |-> InitKind, mem0 |-> (IF InitKind = "rich" THEN RichMem ELSE ZeroMem), ops |-> hist, obs |-> obs])>>)
